@@ -74,6 +74,10 @@ def run(ctx):
     rl_cases = ess + rest[:ctx.pick(400, 4000)]
     # ---- verdict programs x runners
     vr = ["ptrace", "unshare", "cbefore"] if ctx.quick() else RUNNERS
+    if ctx.quick():
+        # mem-over is the expensive one (80 MiB of page faults): in the quick tier with the two ends that
+        # differ most from a plain exit; every other program with every end
+        progs = [p for p in progs if p["scen"] != "mem-over" or p["end"] in ("exit:0", "fault:segv", "hang")]
     v_cases = [dict(p, runner=ru) for ru in vr for p in progs]
     v_cases.sort(key=lambda c: (c["name"] != "cpu-rlimit", c["prog"] != "burn"))   # slow ones first
     # ---- collector grid
@@ -90,7 +94,7 @@ def run(ctx):
         if "rec" in c:
             rl_cases = ess = [dict((k_, c[k_]) for k_ in ("rec", "dev", "name", "runner"))]
         elif "prog" in c:
-            v_cases = [dict((k_, c[k_]) for k_ in ("name", "prog", "arg", "cpu", "cpuHard", "fsize", "tl_us", "ml_kib", "calib", "runner"))]
+            v_cases = [dict((k_, c[k_]) for k_ in ("name", "scen", "end", "prog", "arg", "cpu", "cpuHard", "fsize", "tl_us", "ml_kib", "calib", "runner"))]
         else:
             c_cases = [dict((k_, c[k_]) for k_ in ("n", "volume", "chunk", "delay_us"))]
 
@@ -146,6 +150,7 @@ def run(ctx):
     ctx.cov["kernel_truth_mismatches"] = len(incon)
     ctx.cov["limit_record_runs"] = len(rlobs)
     ctx.cov["verdict_runs"] = len(vobs)
+    ctx.cov["bound_exceeded_then_signal_or_cancel"] = sum(1 for o in vobs if o["scen"] in ("mem-over", "time-over") and o["end"] in ("fault:segv", "hang") and o["limited"])
     ctx.cov["collector_cases"] = len(cobs)
     ctx.cov["records_refused_by_kernel_as_modelled"] = sum(1 for o in rlobs if o["status"] == 8)
     ctx.cov["mem_equal_bound_hits"] = sum(1 for o in vobs if o["name"] == "mem-equal" and o["mem_kib"] == o["ml_kib"])
@@ -153,7 +158,7 @@ def run(ctx):
         o = rlobs[len(rlobs) // 2]
         ctx.sample(dict(runner=o["runner"], name=o["name"], status=o["status"], got_cpu=o["got"][0] if o["got"] else None))
     for o in vobs[:: max(1, len(vobs) // 3)]:
-        ctx.sample(dict((k_, o[k_]) for k_ in ("runner", "name", "status", "exit", "time_us", "mem_kib", "tl_us", "ml_kib")))
+        ctx.sample(dict((k_, o[k_]) for k_ in ("runner", "name", "end", "status", "exit", "time_us", "mem_kib", "tl_us", "ml_kib")))
     if cobs:
         ctx.sample(cobs[len(cobs) // 2])
     ctx.assumptions += [
